@@ -75,6 +75,20 @@ pub(crate) fn tap_u128(site: &'static str, idx: usize, v: u128) -> u128 {
     }
 }
 
+/// Optional bit through the u128 tap: None = 0, Some(false) = 1, Some(true) = 2.
+pub(crate) fn tap_opt_bool(site: &'static str, idx: usize, v: Option<bool>) -> Option<bool> {
+    let cur = match v {
+        None => 0,
+        Some(false) => 1,
+        Some(true) => 2,
+    };
+    match tap_u128(site, idx, cur) {
+        0 => None,
+        1 => Some(false),
+        _ => Some(true),
+    }
+}
+
 pub(crate) fn tap_bytes(site: &'static str, v: &mut [u8]) {
     if let Some(h) = current() {
         h.tap_bytes(site, v);
